@@ -238,4 +238,43 @@ theorem Tree.eraseAt_setAt_fresh (t t1 : Tree) (here : Path) (k : String) (s n :
               simp only [Tree.node.injEq, true_and] at this
               simp [AL.set, h1, this]
 
+theorem AL.set_lookup_self {α} (k : String) (v : α) (l : List (String × α)) (h : AL.lookup k l = some v) :
+    AL.set k v l = l := by
+  induction l with
+  | nil => simp [AL.lookup] at h
+  | cons hd tl ih =>
+    obtain ⟨k1, v1⟩ := hd
+    by_cases h1 : k1 = k
+    · simp only [AL.lookup, h1, if_true, Option.some.injEq] at h
+      subst h; simp [AL.set, h1]
+    · simp only [AL.lookup, h1, if_false] at h
+      simp [AL.set, h1, ih h]
+
+/-- assigning a place the node it already holds changes nothing -/
+theorem Tree.setAt_get_self (t : Tree) (p : Path) (n : Tree) (h : t.get p = some n) : t.setAt p n = some t := by
+  induction p generalizing t with
+  | nil => simp only [Tree.get, Option.some.injEq] at h; subst h; rfl
+  | cons k rest ih =>
+    obtain ⟨a, inner⟩ := t
+    simp only [Tree.get] at h
+    cases hl : AL.lookup k inner with
+    | none => simp [hl] at h
+    | some c =>
+      simp only [hl] at h
+      cases rest with
+      | nil =>
+        simp only [Tree.get, Option.some.injEq] at h
+        subst h
+        simp [Tree.setAt, AL.set_lookup_self k c inner hl]
+      | cons k2 rest2 =>
+        simp [Tree.setAt, hl, ih c h, AL.set_lookup_self k c inner hl]
+
+theorem valPath_pathVal (p : Path) : valPath? (pathVal p) = some p := by
+  induction p with
+  | nil => rfl
+  | cons x xs ih =>
+    simp only [pathVal, valPath?, List.map_cons, List.mapM_cons] at ih ⊢
+    simp [ih]
+
+
 end Viv
